@@ -201,6 +201,24 @@ Theorem closest_level_spec_unique :
     closest_level_spec_of g rn rd k -> closest_level_spec_of g rn rd k' -> k = k'.
 Proof. exact Grid_proofs.closest_level_spec_unique. Qed.
 
+(* closest_level with threshold_res (ths = self.threshold_res, sorted ascending): without thresholds it is
+   closest_level (closest_level_spec above) ... *)
+Theorem closest_level_thr_nil :
+  forall g rn rd, closest_level_thr g [] rn rd = closest_level g rn rd.
+Proof. exact Grid_proofs.closest_level_thr_nil. Qed.
+
+(* ... and a single threshold t between two levels, r_(k-1) > t >= r_k, switches exactly there: a request between the
+   two levels, r_k <= res < r_(k-1), gets level k-1 when res > t and level k otherwise, whatever the stretch factor.
+   (closest_level_thr_switch_partial: one threshold only; several thresholds, thresholds above the first level and
+   requests outside the two neighbouring levels are covered by the correspondence stream only.) *)
+Theorem closest_level_thr_switch_partial :
+  forall g t k rn rd,
+    1 <= k < levels g ->
+    (forall j, 0 <= j < k -> rn < res_at g j * rd /\ t < res_at g j) ->
+    0 < res_at g k <= t -> res_at g k * rd <= rn ->
+    closest_level_thr g [t] rn rd = if t * rd <? rn then k - 1 else k.
+Proof. exact Grid_proofs.closest_level_thr_switch. Qed.
+
 (* get_affected_bbox_and_level (request in the grid SRS): a level is returned exactly when the rectangle intersects
    the grid bbox and the requested resolution rn/rd = min(w/sx, h/sy) does not exceed res_0 * max_shrink_factor
    (otherwise NoTiles); the level is closest_level of that resolution. *)
